@@ -301,6 +301,45 @@ pub trait SubCheck: Sync {
     fn name(&self) -> &str;
     fn run(&self, ctx: &Ctx, rep: &Report);
     fn replay(&self, case: &Value) -> CheckResult;
+    /// Coverage-guided bridge: draw one case with `data` as the generator's random stream and
+    /// judge it.  `None` = this sub-check has no generator to drive.
+    fn fuzz_one(&self, _data: &[u8]) -> Option<Result<(), (Fail, Value)>> {
+        None
+    }
+    /// As `fuzz_one`, then shrink a failing case with the generator's own shrinker.
+    fn fuzz_shrink(&self, _data: &[u8], _max_iters: u32) -> Option<Result<(), (Fail, Value)>> {
+        None
+    }
+}
+
+/// The value tree a generator builds when `data` is its random stream (zeros once exhausted).
+fn tree_from_bytes<T: Debug>(strat: &BoxedStrategy<T>, data: &[u8]) -> Option<Box<dyn ValueTree<Value = T>>> {
+    // proptest's pass-through stream turns into zeros once exhausted, and rand's uniform sampler
+    // rejects an all-zero word for ranges that are not a power of two - for ever.  So the input
+    // is followed by a long fixed pseudo-random tail (the same for every input); sub-generators
+    // forked off the stream (shuffle, perturb) draw from that tail.
+    const TAIL: usize = 256 * 1024;
+    static PAD: std::sync::OnceLock<Vec<u8>> = std::sync::OnceLock::new();
+    let pad = PAD.get_or_init(|| (0..TAIL as u64).map(|k| (mix(0x7a11, k / 8) >> ((k % 8) * 8)) as u8).collect());
+    let mut stream = Vec::with_capacity(data.len() + TAIL);
+    stream.extend_from_slice(data);
+    stream.extend_from_slice(pad);
+    let rng = TestRng::from_seed(RngAlgorithm::PassThrough, &stream);
+    let mut runner = TestRunner::new_with_rng(Config { failure_persistence: None, ..Config::default() }, rng);
+    strat.new_tree(&mut runner).ok()
+}
+
+thread_local! {
+    /// generators are built once per thread for the guided bridge (keyed by the constructor)
+    static STRATS: RefCell<std::collections::HashMap<usize, Box<dyn std::any::Any>>> = RefCell::new(std::collections::HashMap::new());
+}
+
+fn with_cached_strat<T: 'static, R>(mk: fn() -> BoxedStrategy<T>, f: impl FnOnce(&BoxedStrategy<T>) -> R) -> R {
+    STRATS.with(|m| {
+        let mut m = m.borrow_mut();
+        let e = m.entry(mk as usize).or_insert_with(|| Box::new(mk()) as Box<dyn std::any::Any>);
+        f(e.downcast_ref::<BoxedStrategy<T>>().expect("strategy type"))
+    })
 }
 
 /// A property-based sub-check over generated values of `T`.
@@ -462,6 +501,46 @@ where
             "cases_passed": evals.load(Ordering::Relaxed),
             "wall_s": t0.elapsed().as_secs_f64(),
         }));
+    }
+
+    fn fuzz_one(&self, data: &[u8]) -> Option<Result<(), (Fail, Value)>> {
+        let tree = with_cached_strat(self.strat, |s| tree_from_bytes(s, data));
+        let Some(tree) = tree else { return Some(Ok(())) };
+        let v = tree.current();
+        let mut obs = Obs::default();
+        Some(run_one(self.test, &v, &mut obs).map_err(|f| (f, serde_json::to_value(&v).unwrap_or(Value::Null))))
+    }
+
+    fn fuzz_shrink(&self, data: &[u8], max_iters: u32) -> Option<Result<(), (Fail, Value)>> {
+        let tree = with_cached_strat(self.strat, |s| tree_from_bytes(s, data));
+        let Some(mut tree) = tree else { return Some(Ok(())) };
+        let mut best = tree.current();
+        let mut obs = Obs::default();
+        let mut best_fail = match run_one(self.test, &best, &mut obs) {
+            Ok(()) => return Some(Ok(())),
+            Err(f) => f,
+        };
+        if tree.simplify() {
+            for _ in 0..max_iters {
+                let v = tree.current();
+                let mut obs = Obs::default();
+                match run_one(self.test, &v, &mut obs) {
+                    Err(f) => {
+                        best = v;
+                        best_fail = f;
+                        if !tree.simplify() {
+                            break;
+                        }
+                    }
+                    Ok(()) => {
+                        if !tree.complicate() {
+                            break;
+                        }
+                    }
+                }
+            }
+        }
+        Some(Err((best_fail, serde_json::to_value(&best).unwrap_or(Value::Null))))
     }
 
     fn replay(&self, case: &Value) -> CheckResult {
@@ -664,6 +743,17 @@ pub fn run_property(ctx: &Ctx, pc: &PropertyCheck, only_sub: Option<&str>) -> i3
         }
         sc.run(ctx, &rep);
     }
+    // 2b. coverage-guided companions of the property-based sub-checks (corpus replay in every
+    //     tier, libFuzzer campaign in the thorough tier)
+    for spec in crate::props::guided_for(pc.id) {
+        let gname = format!("guided-{}", spec.sub);
+        if only_sub.is_some_and(|o| o != gname) {
+            continue;
+        }
+        if let Some(sc) = pc.subs.iter().find(|s| s.name() == spec.sub) {
+            run_guided(ctx, &rep, sc.as_ref(), &spec);
+        }
+    }
     // 3. evidence + output
     let wall = rep.start.elapsed().as_secs_f64();
     let r = rep.inner.lock().unwrap();
@@ -775,4 +865,234 @@ pub fn sample_n<T: Debug>(strat: &BoxedStrategy<T>, seed: u64, n: usize) -> Vec<
     (0..n)
         .map(|_| strat.new_tree(&mut runner).unwrap().current())
         .collect()
+}
+
+// ---------------------------------------------------------------------------------------------
+// Coverage-guided search (libFuzzer) over the generators of the property-based sub-checks.
+//
+// The cargo-fuzz target `pbt_bridge` hands every libFuzzer input to `fuzz_entry`, which uses the
+// bytes as the random stream of the chosen sub-check's proptest generator (RngAlgorithm::
+// PassThrough), runs the sub-check's own oracle on the generated case and aborts on a failure
+// after writing the case as an ordinary replay file.  libFuzzer's coverage feedback (the tested
+// crates are instrumented) then steers the *generator's choices* towards inputs that reach new
+// code in trippy, with the semantic oracle inside the target.
+
+struct FuzzTarget {
+    pc: PropertyCheck,
+    idx: usize,
+    known: Vec<KnownFinding>,
+    out: PathBuf,
+}
+
+thread_local! {
+    static FUZZ_TARGET: RefCell<Option<FuzzTarget>> = const { RefCell::new(None) };
+}
+
+fn fuzz_target_init() -> FuzzTarget {
+    // replaces libfuzzer-sys's abort-on-panic hook: panics inside `catch` are oracle input
+    install_panic_hook();
+    crate::hrand::set_thread_keys(0x5eed);
+    let spec = std::env::var("VERIF_FUZZ_TARGET").expect("VERIF_FUZZ_TARGET=<ID>/<sub-check>");
+    let (id, sub) = spec.split_once('/').expect("VERIF_FUZZ_TARGET=<ID>/<sub-check>");
+    let pc = crate::props::by_id(id).expect("unknown property");
+    let idx = pc.subs.iter().position(|s| s.name() == sub).expect("unknown sub-check");
+    let verif_dir = PathBuf::from(std::env::var("VERIF_DIR").unwrap_or_else(|_| "/verif".into()));
+    let out = std::env::var("VERIF_FUZZ_OUT").map(PathBuf::from).unwrap_or_else(|_| verif_dir.join("replays"));
+    let ctx = Ctx { prop: id.to_string(), tier: Tier::Thorough, seed: 0, verif_dir, out_dir: out.clone(), scale: 1.0 };
+    let known = load_known(&ctx).findings.into_iter().filter(|k| k.property == id && k.status == "open").collect();
+    FuzzTarget { pc, idx, known, out }
+}
+
+/// Entry point of the cargo-fuzz target `pbt_bridge`.
+pub fn fuzz_entry(data: &[u8]) {
+    FUZZ_TARGET.with(|t| {
+        let mut t = t.borrow_mut();
+        let ft = t.get_or_insert_with(fuzz_target_init);
+        let sc = &ft.pc.subs[ft.idx];
+        if let Some(Err((f, case))) = sc.fuzz_one(data) {
+            if ft.known.iter().any(|k| k.sig == f.sig) {
+                return; // a recorded finding: tolerated in-target so that the campaign goes on
+            }
+            let _ = std::fs::create_dir_all(&ft.out);
+            let h = hash64(&(sc.name(), &f.sig, case.to_string()));
+            let path = ft.out.join(format!("{}-guided-{}-{:016x}.json", ft.pc.id, sc.name(), h));
+            let body = json!({"property": ft.pc.id, "sub": sc.name(), "sig": f.sig, "msg": f.msg, "tier": "thorough", "case": case});
+            let _ = std::fs::write(&path, serde_json::to_string_pretty(&body).unwrap());
+            eprintln!("guided: failing oracle [{}] {}: {}\nguided: case written to {}", sc.name(), f.sig, f.msg, path.display());
+            std::process::abort();
+        }
+    });
+}
+
+/// A coverage-guided companion of a property-based sub-check (same generator, same oracle).
+/// Thorough tier: a libFuzzer campaign.  Every tier: the committed corpus
+/// (`corpus/<ID>/<sub>/`, distilled from earlier campaigns) is replayed in-process first.
+#[derive(Clone, Copy, Debug)]
+pub struct GuidedSpec {
+    pub sub: &'static str,
+    /// executions in the thorough tier (split over the workers)
+    pub runs: u64,
+    /// input length = octets of generator randomness the fuzzer controls (a fixed tail follows)
+    pub max_len: u32,
+}
+
+fn judge_input(ctx: &Ctx, rep: &Report, sc: &dyn SubCheck, data: &[u8], origin: &str) -> bool {
+    match sc.fuzz_shrink(data, 2000) {
+        Some(Err((f, case))) => {
+            let f = Fail::new(f.sig, format!("{} (from {origin})", f.msg));
+            record_violation(ctx, rep, sc.name(), &f, case);
+            true
+        }
+        _ => false,
+    }
+}
+
+pub fn run_guided(ctx: &Ctx, rep: &Report, sc: &dyn SubCheck, spec: &GuidedSpec) {
+    let name = format!("guided-{}", sc.name());
+    {
+        let t0 = Instant::now();
+        let committed = ctx.verif_dir.join("corpus").join(&ctx.prop).join(sc.name());
+        let mut corpus_files: Vec<PathBuf> = std::fs::read_dir(&committed).map(|rd| rd.filter_map(Result::ok).map(|e| e.path()).collect()).unwrap_or_default();
+        corpus_files.sort();
+        // 1. every tier: replay the committed corpus in-process
+        let mut replayed = 0u64;
+        for p in &corpus_files {
+            if let Ok(bytes) = std::fs::read(p) {
+                replayed += 1;
+                if judge_input(ctx, rep, sc, &bytes, &p.display().to_string()) {
+                    break;
+                }
+            }
+        }
+        rep.inner.lock().unwrap().evaluations += replayed;
+        if ctx.tier != Tier::Thorough {
+            rep.sub_summary(json!({"sub": name, "kind": "corpus replay (coverage-guided campaign runs in the thorough tier)", "corpus_inputs": replayed, "wall_s": t0.elapsed().as_secs_f64()}));
+            return;
+        }
+        // 2. thorough: build the target and run the campaign
+        let fuzz_dir = ctx.verif_dir.join("fuzz");
+        let harness_dir = ctx.verif_dir.join("harness");
+        let build = std::process::Command::new("cargo")
+            // no AddressSanitizer: the oracle is semantic, and the target runs ~6x faster without
+            .args(["+nightly", "fuzz", "build", "-O", "-s", "none", "--target-dir"])
+            .arg(fuzz_dir.join("target-nosan"))
+            .arg("--fuzz-dir")
+            .arg(&fuzz_dir)
+            .arg("pbt_bridge")
+            .current_dir(&harness_dir)
+            .env("CARGO_NET_OFFLINE", "true")
+            .output();
+        match build {
+            Ok(o) if o.status.success() => {}
+            Ok(o) => {
+                rep.note(format!("{}: fuzz target build failed (inconclusive): {}", name, String::from_utf8_lossy(&o.stderr).lines().rev().take(5).collect::<Vec<_>>().join(" | ")));
+                return;
+            }
+            Err(e) => {
+                rep.note(format!("{}: cannot start cargo fuzz (inconclusive): {e}", name));
+                return;
+            }
+        }
+        let bin = fuzz_dir.join("target-nosan/x86_64-unknown-linux-gnu/release/pbt_bridge");
+        let work = ctx.out_dir.join("fuzz-work").join(format!("{}-{}", ctx.prop, sc.name()));
+        let _ = std::fs::remove_dir_all(&work);
+        let cdir = work.join("corpus");
+        let art = work.join("artifacts");
+        let rdir = work.join("replays");
+        for d in [&cdir, &art, &rdir] {
+            let _ = std::fs::create_dir_all(d);
+        }
+        for (i, p) in corpus_files.iter().enumerate() {
+            let _ = std::fs::copy(p, cdir.join(format!("committed-{i:05}")));
+        }
+        // seed corpus: random streams of full length (from an empty corpus libFuzzer grows inputs
+        // slowly and a short stream means "zeros" = the generator's minimal choices)
+        for i in 0..64u64 {
+            let v: Vec<u8> = (0..spec.max_len as u64).map(|k| (mix(mix(ctx.seed, i), k / 8) >> ((k % 8) * 8)) as u8).collect();
+            let _ = std::fs::write(cdir.join(format!("seed-{i:03}")), v);
+        }
+        let workers = SHARDS;
+        let runs = (ctx.cases(0, spec.runs) / workers).max(1);
+        let out = std::process::Command::new(&bin)
+            .arg(&cdir)
+            .arg(format!("-runs={runs}"))
+            .arg(format!("-jobs={workers}"))
+            .arg(format!("-workers={workers}"))
+            .arg(format!("-seed={}", (mix(ctx.seed, hash64(&name)) % 0xffff_fff0).max(1)))
+            .arg(format!("-max_len={}", spec.max_len))
+            .args(["-len_control=0", "-print_final_stats=1", "-timeout=300", "-rss_limit_mb=6000", "-use_value_profile=1"])
+            .arg(format!("-artifact_prefix={}/", art.display()))
+            .current_dir(&work)
+            .env("VERIF_FUZZ_TARGET", format!("{}/{}", ctx.prop, sc.name()))
+            .env("VERIF_DIR", &ctx.verif_dir)
+            .env("VERIF_FUZZ_OUT", &rdir)
+            .output();
+        let Ok(out) = out else {
+            rep.note(format!("{}: could not run the fuzz target (inconclusive)", name));
+            return;
+        };
+        // per-worker logs fuzz-<k>.log in the working directory
+        let mut execs = 0u64;
+        let mut cov = 0u64;
+        let mut logs_tail = String::new();
+        if let Ok(rd) = std::fs::read_dir(&work) {
+            for e in rd.filter_map(Result::ok) {
+                let p = e.path();
+                if p.extension().and_then(|x| x.to_str()) != Some("log") {
+                    continue;
+                }
+                let s = std::fs::read_to_string(&p).unwrap_or_default();
+                execs += s.lines().find_map(|l| l.strip_prefix("stat::number_of_executed_units:").and_then(|x| x.trim().parse::<u64>().ok())).unwrap_or(0);
+                for l in s.lines() {
+                    if let Some(i) = l.find(" cov: ") {
+                        if let Some(n) = l[i + 6..].split_whitespace().next().and_then(|x| x.parse::<u64>().ok()) {
+                            cov = cov.max(n);
+                        }
+                    }
+                }
+                if !s.contains("stat::number_of_executed_units") || s.contains("ERROR: libFuzzer") {
+                    logs_tail = s.lines().rev().take(4).collect::<Vec<_>>().join(" | ");
+                }
+            }
+        }
+        rep.inner.lock().unwrap().evaluations += execs;
+        let corpus_after = std::fs::read_dir(&cdir).map(|rd| rd.count()).unwrap_or(0);
+        // 3. artifacts: a crash counts only if the input fails in this (the harness) build too
+        let mut crashes = 0u32;
+        let mut reproduced = 0u32;
+        let mut stalls = 0u32;
+        if let Ok(rd) = std::fs::read_dir(&art) {
+            let mut files: Vec<_> = rd.filter_map(Result::ok).map(|e| e.path()).collect();
+            files.sort();
+            for p in files {
+                let name = p.file_name().and_then(|n| n.to_str()).unwrap_or("").to_string();
+                if name.starts_with("timeout-") || name.starts_with("oom-") || name.starts_with("slow-unit-") {
+                    stalls += 1;
+                    continue;
+                }
+                crashes += 1;
+                if let Ok(bytes) = std::fs::read(&p) {
+                    if judge_input(ctx, rep, sc, &bytes, &format!("libFuzzer artifact {}", p.display())) {
+                        reproduced += 1;
+                    }
+                }
+            }
+        }
+        if crashes > reproduced {
+            rep.note(format!("{}: {} libFuzzer artifact(s) did not fail when re-run in the harness build (inconclusive, not a violation): {}", name, crashes - reproduced, logs_tail));
+        }
+        if stalls > 0 {
+            rep.note(format!("{}: {stalls} timeout / out-of-memory artifact(s) (inconclusive, not a violation), kept under {}", name, art.display()));
+        }
+        if !out.status.success() && crashes == 0 && stalls == 0 {
+            rep.note(format!("{}: libFuzzer exited with {:?} and no artifact (inconclusive): {logs_tail}", name, out.status.code()));
+        }
+        rep.sub_summary(json!({
+            "sub": name, "kind": "coverage-guided fuzzing (libFuzzer input = random stream of the generator; oracle inside the target)",
+            "executions": execs, "workers": workers, "max_len": spec.max_len, "coverage_edges": cov,
+            "committed_corpus_inputs": replayed, "corpus_after": corpus_after, "crash_artifacts": crashes, "reproduced_in_harness_build": reproduced,
+            "corpus_dir": cdir.display().to_string(), "wall_s": t0.elapsed().as_secs_f64(),
+        }));
+    }
+
 }
